@@ -24,6 +24,11 @@ Proof. reflexivity. Qed.
 Lemma GF_by_id : JobQueueGen.future_resolved_by_job_id = true -> future_resolved_by_job_id GF = true.
 Proof. intro H. exact H. Qed.
 
+Lemma reports_raised : reports GF Raised = JobQueueGen.worker_reports_failures.
+Proof. reflexivity. Qed.
+Lemma reports_badconfig : reports GF BadConfig = negb JobQueueGen.non_list_config_rejected_silently.
+Proof. reflexivity. Qed.
+
 Section Statements.
   Variables J R E : Type.
   Variable exec : J -> outcome R E.
@@ -109,7 +114,7 @@ Section Statements.
   Proof.
     intros Hw H sch i j e f Hj He L.
     pose proof (batch_failing J R E exec prep GF js nw (GF_by_id H) sch i j Raised e f Hj He L) as X.
-    cbn in X. rewrite Hw in X. exact X.
+    rewrite reports_raised, Hw in X. exact X.
   Qed.
 
   (* REFUTED on a tree whose worker only logs: the Future of a failing job stays Pending for ever -- for EVERY schedule *)
@@ -120,7 +125,7 @@ Section Statements.
   Proof.
     intros Hw H sch i j e f Hj He L.
     pose proof (batch_failing J R E exec prep GF js nw (GF_by_id H) sch i j Raised e f Hj He L) as X.
-    cbn in X. rewrite Hw in X. exact X.
+    rewrite reports_raised, Hw in X. exact X.
   Qed.
 
   (* the same pair for a rejected configuration (Pipeline instance, tuple, unloadable YAML path) *)
@@ -131,7 +136,7 @@ Section Statements.
   Proof.
     intros Hw H sch i j e f Hj He L.
     pose proof (batch_failing J R E exec prep GF js nw (GF_by_id H) sch i j BadConfig e f Hj He L) as X.
-    cbn in X. rewrite Hw in X. exact X.
+    rewrite reports_badconfig, Hw in X. exact X.
   Qed.
 
   Theorem C15_rejected_config_refuted_when :
@@ -141,7 +146,7 @@ Section Statements.
   Proof.
     intros Hw H sch i j e f Hj He L.
     pose proof (batch_failing J R E exec prep GF js nw (GF_by_id H) sch i j BadConfig e f Hj He L) as X.
-    cbn in X. rewrite Hw in X. exact X.
+    rewrite reports_badconfig, Hw in X. exact X.
   Qed.
 
   (* PARTIAL, unconditional on the failure facts: batches in which every pipeline succeeds *)
@@ -210,13 +215,18 @@ Proof. vm_compute. auto. Qed.
 Example ex_failing_failed :
   let s := run nat nat nat ex_exec (fun j => j) ex_facts_repaired ex_sched (init nat nat nat (number nat [3; 0; 5]) 2) in
   quiescentb nat nat nat s = true /\
-  map snd (futs nat nat nat s) = [FDone 0 30; FFailed 7; FDone 2 50] /\ dropped nat nat nat s = [] /\ setlog nat nat nat s = [0; 1; 2].
+  map snd (futs nat nat nat s) = [FDone 0 30; FFailed 7; FDone 2 50] /\ dropped nat nat nat s = [] /\ setlog nat nat nat s = [1; 0; 2].
 Proof. vm_compute. auto. Qed.
 (* the hypotheses of C15_quiescent_all_resolved / C15_partial are satisfiable: a quiescent state is reached *)
 Example ex_quiescent :
   quiescent nat nat nat ex_exec (fun j => j) ex_facts_repaired
     (run nat nat nat ex_exec (fun j => j) ex_facts_repaired ex_sched (init nat nat nat (number nat [3; 0; 5]) 2)).
-Proof. intros [ | | [|k] | [|[|w]] k | [|[|w]] ]; vm_compute; reflexivity. Qed.
+Proof.
+  intros [ | | k | w k | w ]; try reflexivity.
+  - destruct k; reflexivity.
+  - destruct w as [|[|[|w]]]; destruct k; reflexivity.
+  - destruct w as [|[|[|w]]]; reflexivity.
+Qed.
 Example ex_reports_all : forall j k e, In j [3; 0; 5] -> ex_exec j = Fail k e -> reports ex_facts_repaired k = true.
 Proof. intros j k e [<-|[<-|[<-|[]]]]; vm_compute; intro H; try discriminate. injection H as <- _. reflexivity. Qed.
 Example ex_all_succeed : forall j, In j [3; 4; 5] -> exists r, ex_exec j = Succ r.
